@@ -208,6 +208,12 @@ func (d *Decoder) decodeValue(value reflect.Value) {
 			d.err = errors.Wrap(d.err, "decode interface")
 			return
 		}
+
+		// object is decoded, but it can be object of ANY registered type: checking that field can hold it
+		if val == nil || !reflect.TypeOf(val).ConvertibleTo(value.Type()) {
+			d.err = fmt.Errorf("decode interface: %T is not %v", val, value.Type())
+			return
+		}
 	default:
 		panic("неизвестная штука: " + value.Type().String())
 	}
